@@ -712,7 +712,7 @@ Definition next_block (s : state) (t_next : Z) : state :=
     (recs s) (by_bridger s) (by_ext s) (total_power s) (deleg s) (ubds s) (reds s)
     (bal_o s) (bal_d s) (sets s) (latest_set s) (slashed_set s) (last_slash_height s)
     (batches s) (slashed_batch_block s) (calls s) (slashed_call s) (next_call s)
-    (burned s) (gov_und s) (fun _ => []) None.
+    (burned s) (gov_und s) (set_mem s) (last_obs s).
 
 (* [pd] is what the real chain did (whether it stored a new oracle set in this block); it is recorded with the
    operation but no longer read: the request rule is computed *)
